@@ -9,8 +9,51 @@ reg("C02",
     outside="more nodes/evaluations; push-driven simulation; max_consecutive_immediate_cycles guard; SingleShotScheduler with more than one outstanding request",
     )
 
+_NF_REACH = ["end", "no_failure", "failure_captured", "failure_at_child_node_0", "failure_at_child_node_k",
+             "failure_before_registering_wakeup", "failure_after_registering_wakeup", "two_failures_in_different_cycles",
+             "several_child_nodes_due_in_failing_cycle", "failure_in_cycle_driven_by_outer_tick", "failure_in_cycle_driven_by_child_wakeup_only",
+             "failure_in_start_cycle", "cycle_after_failure", "earlier_node_wakeup_pending_across_failure", "later_node_wakeup_pending_across_failure",
+             "wakeup_requested_by_failing_evaluation", "wakeup_requested_after_failure", "pending_wakeup_due_one_tick_after_failure",
+             "pending_wakeup_due_in_next_cycle_after_failure", "wakeup_due_in_cycle_cut_short_before_requester",
+             "outer_wakeup_pending_across_child_failure", "request_beyond_end", "three_cycles"]
+reg("C02",
+    name="C02_nested_fail", src="harness/C02_nested_fail.cpp",
+    anchor_files=["src/hgraph/runtime/try_except_node.cpp", "src/hgraph/runtime/graph.cpp", "src/hgraph/runtime/nested_graph_node.cpp", "src/hgraph/runtime/node.cpp",
+                  "src/hgraph/runtime/executor.cpp", "include/hgraph/runtime/node_scheduler.h"],
+    quick=dict(defs=dict(J0=2, J1=1, JM=0, JT=1, JO=1, DMAX=2, WMAX=4, MAXFAIL=2, TEV=2, TMASK=15, ORDER_ENUM=1), symx=dict(shards=16, **{"max-wall": 900, "shard-depth": 10})),
+    thorough=dict(defs=dict(J0=2, J1=1, JM=1, JT=2, JO=1, DMAX=2, WMAX=5, MAXFAIL=2, TEV=2, TMASK=15, ORDER_ENUM=1), symx=dict(shards=16, **{"max-wall": 3000, "shard-depth": 8})),
+    reach=_NF_REACH,
+    bounds="a four-node child graph wrapped by try/except (real wire_try_except with a hand-made WiredFn -> try_except_node) that keeps running after captured failures: "
+           "root osrc (self-scheduling source, JO symbolic deltas) -> try_except(child) -> sink; child c0, c1 self-scheduling sources (J0 / J1 symbolic deltas), c2 driven by the "
+           "boundary input (JM symbolic scheduler deltas), c3 driven by c0 and also self-scheduling (JT symbolic deltas), child node index = 0..3 (checked). Every delta symbolic "
+           "in [0,DMAX] us (0 = no request). Each of the first TEV evaluations of each child node may throw, at most MAXFAIL throws per run (every such set, enumerated lazily); "
+           "per failure enumerated: thrown before / after the evaluation registered its wake-up. Start offset symbolic in [0,1000] us, window symbolic in [1,WMAX] us. "
+           "Requests are classified against the observed failures: pending across a failure of a later / an earlier child node, requested by the failing evaluation, requested "
+           "after a failure, at or after a failure raised by the runtime itself; each class has its own assertion id",
+    outside="map_ / switch_ / mesh children with error capture (same graph.cpp cycle but their own child-schedule queues); per-node error capture inside the child (C15); "
+            "failures during start/stop; more than MAXFAIL failures; nodes that write their output before throwing; deeper nesting; real-time executor",
+    )
+
+reg("C02",
+    name="C02_nested_fail_rearm", src="harness/C02_nested_fail.cpp",
+    anchor_files=["src/hgraph/runtime/try_except_node.cpp", "src/hgraph/runtime/graph.cpp", "src/hgraph/runtime/nested_graph_node.cpp", "src/hgraph/runtime/node.cpp",
+                  "include/hgraph/runtime/node_scheduler.h"],
+    quick=dict(defs=dict(J0=1, J1=0, JM=1, JT=2, JO=1, DMAX=2, WMAX=4, MAXFAIL=1, TEV=2, TMASK=6, ORDER_ENUM=0), symx=dict(shards=16, **{"max-wall": 900, "shard-depth": 10})),
+    thorough=dict(defs=dict(J0=2, J1=1, JM=2, JT=2, JO=1, DMAX=2, WMAX=5, MAXFAIL=1, TEV=2, TMASK=7, ORDER_ENUM=0), symx=dict(shards=16, **{"max-wall": 3000, "shard-depth": 8})),
+    reach=["end", "no_failure", "failure_captured", "failure_at_child_node_k", "failure_after_registering_wakeup", "several_child_nodes_due_in_failing_cycle",
+           "failure_in_cycle_driven_by_outer_tick", "failure_in_cycle_driven_by_child_wakeup_only", "failure_in_start_cycle", "cycle_after_failure",
+           "earlier_node_wakeup_pending_across_failure", "later_node_wakeup_pending_across_failure", "wakeup_requested_by_failing_evaluation",
+           "wakeup_requested_after_failure", "wakeup_due_in_cycle_cut_short_before_requester", "wakeup_requested_after_own_wakeup_fell_in_cut_short_cycle",
+           "request_beyond_end", "three_cycles"],
+    bounds="the graph of C02_nested_fail with the input-driven child nodes using their scheduler more: c0 J0 requests, c1 J1, c2 (driven by the boundary input) JM requests, "
+           "c3 (driven by c0) JT requests, outer source JO; at most MAXFAIL throws among the first TEV evaluations of the child nodes in TMASK (quick: c1, c2), thrown after the "
+           "evaluation registered its wake-up; all deltas symbolic in [0,DMAX] us, start offset in [0,1000] us, window in [1,WMAX] us",
+    outside="see C02_nested_fail",
+    )
+
 META = dict(
     level="bounded symbolic model checking of the simulation executor loop (executor.cpp simulation_run_impl, graph.cpp evaluate_impl/schedule_node_impl, node.cpp, node_scheduler.h) "
-          "with all wake-up deltas, the start time and the window length symbolic",
+          "with all wake-up deltas, the start time and the window length symbolic; C02_nested_fail: the same for wake-ups inside a try_except-wrapped child graph that "
+          "keeps running after captured failures (try_except_node.cpp, graph.cpp nested evaluate_impl / schedule propagation), the set of throwing evaluations enumerated",
     note="bounds in evidence coverage.harnesses[*].bounds",
 )
